@@ -19,7 +19,8 @@ stimuli
                   answered normally / rejected with 552, so that events can arrive at every position of it
     plo / p100    650 STATUS_CLIENT NOTICE BOOTSTRAP PROGRESS=<n> / =100 from FakeTor (on every live,
                   subscribed control connection - each connection is its own FakeTor instance)
-    tmo   the virtual clock passes the launch timeout
+    tmo   the virtual clock reaches launch time + timeout exactly (every other stimulus happens "pace"
+          seconds after the previous one - 0, 1, 2 or 3 s per case - always before that deadline)
     exit0 / exit1 / sig   the process ends (code 0 / code 1 / signal), control link drops
 
 plus a configuration variant (caller / temporary data directory, control-port form, default
@@ -71,7 +72,9 @@ RULE = ("a case = (schedule, data-directory kind, configuration variant). Schedu
         "hash of the whole case. Non-trivial = launch() spawned the fake process and at least one stimulus was applied "
         "and judged.")
 ASSUMPTIONS = [
-    "stimuli are delivered one at a time, each followed by quiescence (Link pumped, zero-delay calls run)",
+    "stimuli are delivered one at a time, each followed by quiescence (Link pumped, zero-delay calls run); "
+    "consecutive stimuli are 0-3 virtual seconds apart and all precede launch time + timeout except tmo, which lands "
+    "exactly on it",
     "process end implies loss of the control connection (before or after processEnded, both orders explored)",
     "FakeTor emits STATUS_CLIENT events only after an authenticated SETEVENTS subscribed them; commands are answered "
     "at once unless the schedule holds TAKEOWNERSHIP / RESETCONF",
@@ -101,6 +104,7 @@ FLOORS = {
               "timeouts_before_bootstrap_judged": 1500, "shutdown_firings": 3500, "split_listener_cases": 400,
               "control_connections_retried": 80, "control_connections_dropped_mid_ownership": 600,
               "dialogue_commands_stalled": 30, "late_observers_compared_with_first_outcome": 10000,
+              "timeouts_judged_after_failed_attempts_at_later_instants": 300,
               "reach:txtorcon.controller:TorProcessProtocol._maybe_notify_connected": 6000,
               "reach:txtorcon.controller:TorProcessProtocol.when_connected": 25000,
               "reach:txtorcon.controller:TorProcessProtocol.processEnded": 3500,
@@ -113,6 +117,7 @@ FLOORS = {
                  "temp_dir_checks_after_exit": 20000, "caller_dir_checks": 100000,
                  "timeouts_before_bootstrap_judged": 10000, "shutdown_firings": 25000,
                  "split_listener_cases": 10000, "control_connections_retried": 800,
+                 "timeouts_judged_after_failed_attempts_at_later_instants": 2000,
                  "reach:txtorcon.controller:TorProcessProtocol._maybe_notify_connected": 40000,
                  "reach:txtorcon.controller:TorProcessProtocol.processEnded": 25000,
                  "reach:txtorcon.controller:TorProcessProtocol._timeout_expired": 10000,
@@ -160,6 +165,8 @@ EXITS = ("exit0", "exit1", "sig")
 # txtorcon may retry when the listener line shows up again
 POST_AUTH_FAILURES = ("own-", "own!", "rst-", "rst!")
 DROPS = ("own!", "rst!")
+# stimuli after which txtorcon gives up on a control connection attempt (it may try again)
+FAILED_ATTEMPT_ATOMS = ("cfail", "cfail2", "own-", "own!", "rst-", "rst!", "stl-")
 
 
 def connections_alive(prefix):
@@ -313,6 +320,7 @@ def variant(rnd, dd, **fixed):
         "evt_order": rnd.choice(["old-first", "new-first"]),
         "split": None,
         "stall": None,
+        "pace": rnd.choice([0, 1, 2, 3, 3]),
     }
     v.update(fixed)
     return v
@@ -489,6 +497,8 @@ class Run(object):
         self.t100_link = None       # the connection over which the first complete PROGRESS=100 arrived
         self.tor_kw = None
         self.stall = {"at": case.get("stall")}
+        self.deadline = None
+        self.failed_attempt_times = []     # clock instants at which a control connection attempt failed
         self.proc = None
         self.pp = None
         self.custom_attempts = []   # Deferreds handed out by the custom connection creator
@@ -602,6 +612,7 @@ class Run(object):
         self.progress_seen = []
         r.spawn_hook = self.spawned
         self.log.start()
+        self.deadline = r.seconds() + TIMEOUT          # launch time + timeout, on the virtual clock
         self.L = self.watch(self.guard("launch", txtorcon.launch, r, **kw), "launch", "launch")
         self.guard("flush", r.flush)
         return self.proc is not None
@@ -734,6 +745,12 @@ class Run(object):
         """deliver one stimulus; False if it is not applicable in the current state"""
         proc = self.proc
         live = proc is not None and proc.alive
+        pace = self.case.get("pace", 0)
+        if pace and atom != "tmo":
+            # time passes between stimuli; before the deadline only "tmo" crosses it
+            now = self.reactor.seconds()
+            if self.timeout_elapsed_at is not None or now + pace < self.deadline:
+                self.guard("pace", self.reactor.advance, pace)
         if atom in ("lst", "lst2"):
             if not live:
                 return False
@@ -818,7 +835,8 @@ class Run(object):
                 self.timeout_elapsed_at = self.step_no
                 if self.t100 is None and self.launch_failed_due is None:
                     self.launch_failed_due = "timeout"
-            self.guard("tmo", self.reactor.advance, TIMEOUT + 1)
+            # exactly the deadline: launch time + timeout, whatever happened to connection attempts
+            self.guard("tmo", self.reactor.advance, max(0, self.deadline - self.reactor.seconds()))
         elif atom in EXITS or atom == "final-exit":
             if not live:
                 return False
@@ -843,6 +861,8 @@ class Run(object):
         for link in self.live_links():
             link.pump()
         self.guard("flush", self.reactor.flush)
+        if atom in FAILED_ATTEMPT_ATOMS and self.timeout_elapsed_at is None:
+            self.failed_attempt_times.append(self.reactor.seconds())
         return True
 
     def drop_link(self):
@@ -973,8 +993,19 @@ class Run(object):
                 rec.count("timeouts_elapsed_judged")
                 if self.t100 is None and not self.launch_fired_before_tmo:
                     rec.count("timeouts_before_bootstrap_judged")
+                    # the deadline is launch time + timeout whatever became of connection attempts
+                    later = [t for t in self.failed_attempt_times if t > self.deadline - TIMEOUT]
+                    if self.failed_attempt_times:
+                        rec.count("timeouts_judged_after_failed_connection_attempts")
+                    if later:
+                        rec.count("timeouts_judged_after_failed_attempts_at_later_instants")
+                        rec.seen("failed_attempt_instants", ",".join("%g" % t for t in self.failed_attempt_times))
                     if "TERM" not in new:
-                        self.V("timeout-without-term-signal", ocls, {"signals_sent_on_timeout": new})
+                        self.V("timeout-without-term-signal",
+                               ocls + ("+connection-attempt-failed-after-launch-instant" if later else ""),
+                               {"signals_sent_on_timeout": new, "clock": self.reactor.seconds(),
+                                "deadline": self.deadline, "failed_attempts_at": list(self.failed_attempt_times),
+                                "launch_fired": bool(self.L.fired)})
                 elif self.t100 is not None and new:
                     self.V("term-signalled-after-bootstrap-complete", ocls, {"signals_sent_on_timeout": new})
         # (4) failure is due
